@@ -115,6 +115,27 @@ theorem execStep_inv (cfg : Config S) (hdt : 0 ≤ cfg.dt) (P : NodeId → Proto
     (ext_logAll cfg (fun h => Obs.afterStep h (execEv cfg P e (popped e rest w)).iter e.ts) (by intro h n cb t e; cases e) cfg.handlers _)
   exact ⟨WInv.congr (w := logAll (fun h => Obs.afterStep h (execEv cfg P e (popped e rest w)).iter e.ts) cfg.handlers (execEv cfg P e (popped e rest w))) rfl rfl rfl (e1.inv (popped_inv h hq)), e1.now_eq, e1.exec_eq⟩
 
+/-- lazy initialisation at the start of a step -/
+def prep (cfg : Config S) (P : NodeId → Proto S σ) (w : World S σ) : World S σ :=
+  if w.initialized then w else initialise cfg P w
+
+/-- `step` on a world that is not finalised, with the lazily initialised world named -/
+theorem step_eq (cfg : Config S) (P : NodeId → Proto S σ) (w : World S σ) (hf : w.finalized = false) :
+    step cfg P w =
+      if isDone cfg (prep cfg P w) then (finalise cfg P (prep cfg P w), false)
+      else match (prep cfg P w).loop.queue with
+        | [] => (prep cfg P w, false)
+        | e :: rest =>
+          if isDone cfg (execStep cfg P e rest (prep cfg P w)) then
+            (finalise cfg P (execStep cfg P e rest (prep cfg P w)), false)
+          else (execStep cfg P e rest (prep cfg P w), true) := by
+  unfold step prep
+  rw [if_neg (by simp [hf])]
+  simp only
+  split
+  · rfl
+  · split <;> rfl
+
 theorem isDone_nil {cfg : Config S} {w : World S σ} (hq : w.loop.queue = []) : isDone cfg w = true := by
   unfold isDone; rw [hq]
 
